@@ -69,11 +69,17 @@ def run(tier, seed):
               'deterministic scheduler (scheduling points = datastore primitive calls and servicer-lock acquisitions); schedules random '
               '(quick) or exhaustive per pair (thorough); oracle = some serial order of the same calls on the real implementation up to '
               'renumbering of new trials; model replayed on the same schedule; non-trivial = the two calls really interleave')
-  rep.trusted = ['Coq 8.16.1 kernel + vm_compute', 'harness/conc.py deterministic scheduler (one managed thread runs at a time; '
+  rep.trusted = ['Coq 8.16.1 kernel + vm_compute', 'harness/translate/svclocks.py (Python-ast: datastore call sites and enclosing servicer locks, fail-closed)', 'harness/conc.py deterministic scheduler (one managed thread runs at a time; '
                  'interleavings inside a datastore primitive, inside SQLite/gRPC and the GIL are not explored)',
                  'service model tied by trace-level correspondence (see C01)']
+  broke = None
+  try:
+    from harness.translate import svclocks
+    C.write_gen('Gen/ServiceLocks.v', svclocks.translate(C.REPO))
+  except Exception as e:  # pylint: disable=broad-except
+    broke = 'translator harness/translate/svclocks.py refused vizier_service.py: %r' % (e,)
   C.standard_proof_step(rep, 'C04')
-  broke = rep.proof_broken
+  broke = ((broke or '') + ' ' + (rep.proof_broken or '')).strip() or None
   concrete = False
   known = {f['id']: f for f in C.load_known() if f['property'] == 'C04'}
   r = C.rng(seed, 'c04')
